@@ -331,6 +331,9 @@ class Contract:
         self.calls: Optional[List[tuple]] = kw.pop("calls", None)
         # callee name -> name of the contract to use for it while verifying THIS function (contract views)
         self.use: Dict[str, str] = kw.pop("use", {})
+        # executable definitions of ghost functions, used only by the run-time contract monitor (pyvc/rtcheck.py):
+        # name -> python lambda source evaluated in the environment of the call (parameters by name)
+        self.ghost_impl: Dict[str, str] = kw.pop("ghost_impl", {})
         if kw:
             raise TypeError(f"unknown contract keys {list(kw)}")
 
